@@ -319,7 +319,10 @@ class Balancer:
 
     @staticmethod
     def _unpack_truisms_and(c):
-        return set.union(*[Balancer._unpack_truisms(a) for a in c.args])
+        # every conjunct must hold: each is a truism itself, together with whatever it unpacks to (handing back only
+        # the latter left a conjunction of plain comparisons with nothing, and the And was then processed as if it
+        # were a comparison)
+        return set(c.args).union(*[Balancer._unpack_truisms(a) for a in c.args])
 
     @staticmethod
     def _unpack_truisms_not(c):
